@@ -501,8 +501,12 @@ class SQLiteOrchestrator(BaseOrchestrator):
             )
             to_purge = [row[0] for row in cursor.fetchall()]
             cursor.close()
+            # release_waiters writes through a connection of its own: all of them run
+            # before this connection starts its write transaction (with the first DELETE),
+            # otherwise the second release blocks on our own lock ("database is locked")
             for invocation_id in to_purge:
                 self.release_waiters(invocation_id)
+            for invocation_id in to_purge:
                 conn.execute(
                     f"DELETE FROM {self.tables.INVOCATIONS} WHERE invocation_id = ?",
                     (invocation_id,),
